@@ -306,7 +306,7 @@ package mhprimary
 // the legacy upgrade); the primary handed back appends at the end of the last file, its record
 // cursor (where Put predicts locations) equals its flush cursor (where flushBlock writes), and
 // its invariant holds.
-//@ func Open(path string, freeList *freelist.FreeList, fileCache *filecache.FileCache, maxFileSize uint32) (mp *MultihashPrimary, err error)  property C02 C09 C17
+//@ func Open(path string, freeList *freelist.FreeList, fileCache *filecache.FileCache, maxFileSize uint32) (mp *MultihashPrimary, err error)  property C02 C03 C09 C17
 //@   modifies fp(IO), fp(CTX), heap("bufio."), heap("freelist.FreeList")
 //@   fresh mp
 //@   ghost var gexisting bool = false
@@ -317,6 +317,14 @@ package mhprimary
 //@   abstract ensures err == nil ==> !PS(mp).$closed && !PS(mp).$pending
 // input invariant: a primary file is smaller than 8 GiB (records start below the 2^30 limit and are smaller than 2^31)
 //@   assume at after call (*os.File).Seek#0: @format-primary-file-size $r0 < 8589934592
+// Crash clause of C03: the cursor at which the reopened primary appends must be a record
+// boundary of the last file (gB, ghost: the boundaries a validation of that file has found).
+// This obligation FAILS on the code as it is (finding F13, open: nothing validates or removes a
+// torn record at the end of the last primary file, later records are appended after it and
+// primary GC then mis-frames the file); it is listed in /verif/KNOWN_FINDINGS.txt and reproduced
+// by /verif/findings/f13_test.go.
+//@   ghost var gB (Array Int Bool) = nopos()[0 := true]
+//@   assert at after call (*os.File).Seek#0: @C03-append-at-record-boundary {C03} $r1 == nil ==> gB[$r0]
 //@   assert at before call mhprimary.upgradePrimary#0: @C09-upgrade-only-without-header !gexisting
 //@   assert at before call mhprimary.writeHeader#0: @C09-header-written-only-when-none-existed !gexisting && $a1.MaxFileSize == maxFileSize
 //@   assert at before call mhprimary.findLastPrimary#0: @C09-size-checked-first gexisting && header.MaxFileSize == maxFileSize
